@@ -244,9 +244,50 @@ def one_case(ctx, rng):
         rec.sample({'k': k, 'text': sc.text[:300]})
 
 
+def padded_case(ctx, rng):
+    """A statement whose opaque regions contain ';' is placed so that it
+    straddles a typical buffer size; the statements before it are simple
+    padding. split() must return padding + 2 statements."""
+    rec = ctx.rec
+    rec.case()
+    rec.monitor('statement_extents')
+    T_ = rng.choice([4096, 8192, 16384, 65536])
+    target = rng.choice([
+        "select 'archived; do not use; ever' as note, \"a;b\" from t /* c; d */ where x = $q$ 1; 2 $q$;",
+        "insert into t values ('line one;\nline two;', 2) -- tail; comment\n;",
+        "select a from (select 1; ) z where b in (1; 2);",
+    ])
+    unit = rng.choice(['select 1;\n', 'select a, b from t where c = 1;\n',
+                       "insert into t values (1, 'x');\n"])
+    n = max(0, (T_ - rng.randint(0, len(target))) // len(unit))
+    fill = (T_ - rng.randint(0, len(target))) - n * len(unit)
+    text = unit * n + ' ' * max(0, fill) + target + '\nselect 2;'
+    want = n + 2
+    case = {'text': text[-400:], 'k': want, 'offset': T_,
+            'stmt_spans': []}
+    try:
+        got = len(sqlparse.split(text))
+        gotp = len(sqlparse.parse(text)) if T_ <= 8192 else got
+    except Exception:
+        rec.count('exception_(C07)')
+        return
+    if got != want or gotp != want:
+        rec.violation('count-at-offset', case,
+                      'a statement with ; inside its opaque regions placed '
+                      'across offset %d: split gives %d statements, parse %d, '
+                      'expected %d' % (T_, got, gotp, want), key=('pad', T_))
+    rec.nontrivial(('padded', T_, target[:10], unit[:10]))
+    rec.count('padded_cases')
+
+
 def shard(ctx):
+    k = 0
     while ctx.running():
-        one_case(ctx, ctx.rng)
+        k += 1
+        if k % 120 == 60:
+            padded_case(ctx, ctx.rng)
+        else:
+            one_case(ctx, ctx.rng)
 
 
 def replay(ctx, kind, case):
